@@ -1,5 +1,5 @@
 /* C12 — ticket_spinlock / simple_spinlock under all interleavings of NT threads doing PAIRS lock/unlock pairs.
- *  -DLOCK_TICKET or -DLOCK_SIMPLE, -DNT=2|3, -DPAIRS=1|2, -DHB (NT=2 only: happens-before monitor over the memory orders in the IR)
+ *  -DLOCK_TICKET or -DLOCK_SIMPLE, -DNT=2|3|4, -DPAIRS=1|2, -DHB (NT=2 only: happens-before monitor over the memory orders in the IR)
  * Interleavings: CBMC's partial-order encoding over the translated atomic operations (sequential consistency).
  * Memory orders: vector-clock monitor fed by the IR2C_EVENT_* hooks, which carry the order found in the LLVM IR.
  * Spin loops are unwound SPIN times; a thread that would spin longer is cut by assumption ("blocked"); their unwinding
@@ -42,7 +42,7 @@ unsigned c00, c01, c10, c11;              /* cXY: thread X's knowledge of thread
 unsigned a0, a1; int a_valid;             /* clock published on location 0 by the head of its release sequence */
 unsigned b0, b1; int b_valid;             /* same for location 1 */
 unsigned dw_clk; int dw_tid = -1;         /* last plain access to the protected datum */
-unsigned tk0, tk1, tk2;                   /* ticket taken by each thread (ticket lock) */
+unsigned tk0, tk1, tk2, tk3;                   /* ticket taken by each thread (ticket lock) */
 static void join(unsigned x0, unsigned x1) { if(tid == 0) { if(x0 > c00) c00 = x0; if(x1 > c01) c01 = x1; } else { if(x0 > c10) c10 = x0; if(x1 > c11) c11 = x1; } }
 static void publish(int loc) {
 	unsigned m0, m1;
@@ -67,7 +67,7 @@ void ir2c_event_store(const void *p, const char *o) {
 void ir2c_event_rmw(const void *p, const char *o) {
 	int l = locof(p);
 #ifdef LOCK_TICKET
-	if(l == 0) { unsigned t = *(const uint32_t *)p; if(tid == 0) tk0 = t; else if(tid == 1) tk1 = t; else tk2 = t; }   /* old value = my ticket */
+	if(l == 0) { unsigned t = *(const uint32_t *)p; if(tid == 0) tk0 = t; else if(tid == 1) tk1 = t; else if(tid == 2) tk2 = t; else tk3 = t; }   /* old value = my ticket */
 #endif
 #ifdef HB
 	if(l < 0) return;
@@ -101,7 +101,7 @@ static void critical_section(void) {
 	VP_ASSERT(in_cs == 0, "mutual exclusion: two threads inside the critical section");
 	in_cs = 1;
 #ifdef LOCK_TICKET
-	{ unsigned my = tid == 0 ? tk0 : tid == 1 ? tk1 : tk2;
+	{ unsigned my = tid == 0 ? tk0 : tid == 1 ? tk1 : tid == 2 ? tk2 : tk3;
 	  VP_ASSERT(my == (unsigned)grants, "ticket lock grants in ticket order (FIFO)");
 	  VP_ASSERT(L.f1 == my, "ticket lock: the thread inside holds the ticket being served"); }
 #else
@@ -138,6 +138,9 @@ void harness(void) {
 __CPROVER_ASYNC_1: worker(1);
 #if NT >= 3
 __CPROVER_ASYNC_2: worker(2);
+#endif
+#if NT >= 4
+__CPROVER_ASYNC_3: worker(3);
 #endif
 #endif
 	worker(0);
